@@ -201,47 +201,64 @@ func c08Jobs(thorough bool) []job {
 		// Get and Latest on one client
 		add(job{M: 2, Init: 4, Pre: 1, Threads: [][]string{{"G:hlA:1:2", "L:3"}, {"L:3", "G:hlB:1:2"}}})
 		add(job{M: 1, Init: 4, Pre: 1, Threads: [][]string{{"L:0", "G:blA:1:2"}, {"G:blB:1:2", "L:3"}}})
+		// the same range through both segment caches (header plans and block plans must not share)
+		add(job{M: 2, Pre: 1, Threads: [][]string{{"G:b:1:2", "G:hlA:1:2"}, {"G:hlB:1:2", "G:blB:1:2"}}})
 		return jobs
 	}
 	// ---- thorough ----
+	// (1) core two-thread jobs at 3 preemptions
+	add(segJobs("h", "ab|ba", false, 3, 1, 2)...)
+	add(segJobs("h", "ap|pb", false, 3, 2)...)
+	add(segJobs("b", "ar|ba", false, 3, 2)...)
+	// (2) three threads
+	add(segJobs("h", "pp|p|p", false, 2, 1, 2, 3)...)
+	add(segJobs("h", "p|p|p", false, 3, 1, 2)...)
+	add(segJobs("b", "a|b|p", false, 2, 1)...)
+	add(segJobs("b", "ap|b|p", false, 2, 2)...)
+	// (3) every multiset of two 2-call programs with two different filters, both caches, 2 preemptions
 	for _, fam := range fams {
-		// two threads x two calls at 3 preemptions
-		for _, sp := range []string{"ab|ba", "ap|pb", "aa|bb", "ab|ab", "pa|bp", "ac|ba", "ad|eb", "de|ed"} {
-			add(segJobs(fam, sp, false, 0, 1, 2, 3)...)
+		for _, pair := range multisets([]string{"ab", "ba", "ap", "pa", "bp", "pb"}, 2) {
+			add(segJobs(fam, strings.Join(pair, "|"), false, 2, 1, 2)...)
 		}
-		// every multiset of two 2-call programs over {a,b,p} at 2 preemptions
-		for _, pair := range multisets(words("abp", 2), 2) {
-			add(segJobs(fam, strings.Join(pair, "|"), false, 2, 1, 2, 3)...)
+		for _, sp := range []string{"aa|bb", "aa|aa", "pp|ab", "ab|ba", "pa|bp"} {
+			add(segJobs(fam, sp, false, 2, 3)...)
 		}
-		// three threads: one call each at 3 preemptions; 1-2 calls at 2 preemptions
-		for _, tr := range multisets([]string{"a", "b", "p"}, 3) {
-			add(segJobs(fam, strings.Join(tr, "|"), false, 0, 1, 2)...)
-		}
-		for _, sp := range []string{"ab|b|a", "aa|a|a", "ab|ba|a", "ab|ba|ab", "ap|b|ba"} {
-			add(segJobs(fam, sp, false, 2, 1, 2, 3)...)
-		}
-		// failures
-		for _, sp := range []string{"ab|ba", "ab|ab", "ap|pb", "ac|ba", "a|b|a"} {
-			add(segJobs(fam, sp, true, 2, 1, 2, 3)...)
+		for _, sp := range []string{"ac|ba", "ad|eb", "de|ed", "ca|ac"} {
+			add(segJobs(fam, sp, false, 2, 1, 2)...)
 		}
 	}
 	for _, sp := range []string{"ar|ba", "rb|ar", "ra|pr", "rr|ab"} {
-		add(segJobs("b", sp, false, 0, 1, 2, 3)...)
-		add(segJobs("b", sp, true, 2, 2)...)
+		add(segJobs("b", sp, false, 2, 1, 2, 3)...)
 	}
-	for _, m := range []int{1, 2, 3} {
-		for _, p1 := range []string{"L:0 H:5 L:3", "L:0 H:3 L:3", "L:3 H:4 L:3", "L:3 H:5 L:5", "L:3 L:3 H:5", "L:3 H:5 H:5 L:3", "L:3 H:5 H:3 L:3"} {
+	// (4) failures
+	for _, fam := range fams {
+		for _, sp := range []string{"ab|ba", "ab|ab", "ap|pa", "ac|ba"} {
+			add(segJobs(fam, sp, true, 2, 1, 2)...)
+		}
+	}
+	add(segJobs("b", "ar|ba", true, 2, 1, 2)...)
+	add(segJobs("h", "p|p|p", true, 2, 1)...)
+	// (5) head cache
+	for _, m := range []int{1, 2} {
+		for _, p1 := range []string{"L:0 H:5 L:3", "L:0 H:3 L:3", "L:3 H:4 L:3", "L:3 H:5 L:5", "L:3 L:3 H:5"} {
 			add(headJob(m, 2, false, p1, "L:3"))
-			add(headJob(m, 2, false, p1, "L:5"))
+		}
+		for _, p1 := range []string{"L:0 H:5 L:3", "L:3 H:3 L:3", "L:3 H:5 H:5 L:3", "L:3 H:5 H:3 L:3"} {
 			add(headJob(m, 1, false, p1, "L:3 L:3"))
 			add(headJob(m, 1, false, p1, "L:0 L:3"))
-			add(headJob(m, 1, true, p1, "L:3"))
 		}
-		add(headJob(m, 3, false, "L:3 L:3", "L:3 L:3"))
-		add(headJob(m, 3, false, "L:0 L:3", "L:3 L:4"))
-		add(headJob(m, 2, false, "L:3", "L:3", "L:3 L:3"))
+		add(headJob(m, 2, false, "L:3 L:3", "L:3 L:3"))
+		add(headJob(m, 2, false, "L:0 L:3", "L:3 L:4"))
+		add(headJob(m, 1, true, "L:0 H:5 L:3", "L:3"))
+		add(headJob(m, 1, true, "L:3 H:3 L:3", "L:3"))
+		add(headJob(m, 1, true, "L:3 H:5 H:5 L:3", "L:3"))
+		// (6) Get and Latest on one client
 		add(job{M: m, Init: 4, Pre: 2, Threads: [][]string{{"G:hlA:1:2", "L:3"}, {"L:3", "G:hlB:1:2"}}})
 		add(job{M: m, Init: 4, Pre: 2, Threads: [][]string{{"L:0", "G:blA:1:2"}, {"G:blB:1:2", "L:3"}}})
+	}
+	add(headJob(3, 1, false, "L:0 H:5 L:3", "L:3 L:3"))
+	for _, m := range []int{2, 3} {
+		add(job{M: m, Pre: 2, Threads: [][]string{{"G:b:1:2", "G:hlA:1:2"}, {"G:hlB:1:2", "G:blB:1:2"}}})
 	}
 	return jobs
 }
@@ -418,37 +435,63 @@ func c08Run(c *fw.Ctx) {
 			return !c.Expired()
 		}
 		visit := func(r *explore.Run) bool { return record(runJudged(j, r, states, false), r) }
-		root := explore.NewRun(explore.Item{})
-		rx := runJudged(j, root, nil, false)
-		if rx.res.harness != "" {
-			c.HarnessError("job %s root: %s", j, rx.res.harness)
+		// split(item): every worker executes item (to learn its children); the owner of the unit
+		// "item itself" records it; children that deviate early (big sub-trees) are split again,
+		// the others are sub-tree units.
+		var execs int64
+		ok := true
+		var split func(it explore.Item, depth int, cut int)
+		split = func(it explore.Item, depth int, cut int) {
+			if !ok {
+				return
+			}
+			r := explore.NewRun(it)
+			x := runJudged(j, r, nil, false)
+			if x.res.harness != "" || r.Diverged != "" {
+				c.HarnessError("job %s prefix %v: %s %s", j, it.Prefix, x.res.harness, r.Diverged)
+				ok = false
+				return
+			}
+			if cut < 0 {
+				cut = len(r.Choices()) / 3
+			}
+			if c.Mine() {
+				execs++
+				if !record(x, r) {
+					ok = false
+					return
+				}
+			}
+			for _, kid := range explore.Expand(b, true, r) {
+				if !ok {
+					return
+				}
+				if depth > 0 && len(kid.Prefix) <= cut {
+					split(kid, depth-1, cut)
+					continue
+				}
+				if !c.Mine() {
+					continue
+				}
+				st := explore.ExploreFrom(b, true, kid, visit)
+				execs += st.Executions
+				if !st.Complete {
+					c.Cap("time-budget")
+					ok = false
+					return
+				}
+				c.Count("subtrees_completed", 1)
+			}
+		}
+		split(explore.Item{}, 1, -1)
+		if !ok {
 			return
 		}
-		kids := explore.Expand(b, true, root)
-		var execs int64
-		if c.Mine() {
-			if !record(rx, root) {
-				return
-			}
-			execs++
-			c.Count("jobs_rooted", 1)
-		}
-		for _, kid := range kids {
-			if !c.Mine() {
-				continue
-			}
-			st := explore.ExploreFrom(b, true, kid, visit)
-			execs += st.Executions
-			if !st.Complete {
-				c.Cap("time-budget")
-				return
-			}
-			c.Count("subtrees_completed", 1)
-		}
+		c.Count("jobs_rooted", 1)
 		c.Res.States += int64(states.Len())
 		if dbg != "" {
 			f, _ := os.OpenFile(dbg, os.O_APPEND|os.O_CREATE|os.O_WRONLY, 0o644)
-			fmt.Fprintf(f, "shard %d job %s: subtrees=%d executions=%d %.1fs\n", c.Shard, j, len(kids), execs, time.Since(t0).Seconds())
+			fmt.Fprintf(f, "shard %d job %s: executions=%d %.1fs\n", c.Shard, j, execs, time.Since(t0).Seconds())
 			f.Close()
 		}
 		c.Count("lock_contentions", vrt.Contentions)
